@@ -45,3 +45,12 @@ Qed.
 (* C03 on the translated step: never FIRST, MID with discount 1 or LAST with discount 0 (no truncation) -- any state, any action *)
 Lemma src_step_protocol rnd sparse mc pen dist s a : step_ok 1 false (snd (step mc (reward_model rnd sparse pen dist) s a)) = true.
 Proof. destruct (step_src rnd sparse mc pen dist s a) as [_ E]. rewrite E. apply C03_step_protocol. Qed.
+(* C05: a refused node (any state) leaves the state untouched and ends the episode; the penalty is paid *)
+Lemma src_refused_any_state dist rnd sp mc pen s a : M.valid (conv s) a = false ->
+  let p := step mc (reward_model rnd sp pen dist) s a in
+  conv (fst p) = conv s /\ st (snd p) = LAST /\ discount (snd p) = [0]
+  /\ (sp = true \/ M.all_visited (conv s) = false -> reward (snd p) = [- pen]).
+Proof.
+  intros Hv. cbv zeta. destruct (step_src rnd sp mc pen dist s a) as [E1 E2]. rewrite E1, E2.
+  exact (C05_refused_any_state dist rnd sp mc pen (conv s) a Hv).
+Qed.
